@@ -35,7 +35,9 @@ Values == {[t |-> "{}", k |-> "obj"], [t |-> "{\"a\":1}", k |-> "obj"], [t |-> "
            \* white space for Unicode / Go, but not for JSON (% stands for form feed, ` for U+00A0): not a JSON text
            [t |-> "%{\"a\":1}", k |-> "bad"], [t |-> "`[1]", k |-> "bad"], [t |-> "%{}", k |-> "bad"],
            \* a byte-order mark (@) is not white space for JSON either
-           [t |-> "@{\"a\":1}", k |-> "bad"], [t |-> "@[1]", k |-> "bad"]}
+           [t |-> "@{\"a\":1}", k |-> "bad"], [t |-> "@[1]", k |-> "bad"],
+           \* a numeral beyond float64 is a number for the grammar and an error for the decoder
+           [t |-> "{\"a\":1e400}", k |-> "range"], [t |-> "[1,-1E999]", k |-> "range"]}     \* ("range": rejected -- unless numbers are kept as their text, JsonUseNumber)
 Wss == {"", " ", "\n\t"}
 Trailers == {"", "x", "{\"b\":2}", "}"}
 Inputs == {[text |-> w1 \o v.t \o w2 \o tr, kind |-> v.k, lead |-> w1 # "", trail |-> tr # ""] : v \in Values, w1 \in Wss, w2 \in Wss, tr \in Trailers}
